@@ -19,6 +19,9 @@ import types
 import warnings
 import zlib
 
+_RealDate = _real_datetime.date
+_RealDateTime = _real_datetime.datetime
+
 VERIF = os.path.dirname(os.path.dirname(os.path.abspath(__file__)))
 REPO = os.path.abspath(os.environ.get('VERIF_REPO', '/repo'))
 NPROC = int(os.environ.get('VERIF_NPROC', '16'))
@@ -94,29 +97,29 @@ def ValidationError():
 # `datetime` (module or class) or `date` gets a shim whose today()/now()
 # return the harness-chosen date. No repository hook is needed.
 
-_clock = {'today': _real_datetime.date(2024, 5, 17)}
+_clock = {'today': _RealDate(2024, 5, 17)}
 
 
 class _DateMeta(type):
     """isinstance(x, shim.date) must keep accepting real dates created outside the library."""
 
     def __instancecheck__(cls, inst):
-        return isinstance(inst, _real_datetime.date)
+        return isinstance(inst, _RealDate)
 
 
 class _DateTimeMeta(type):
     def __instancecheck__(cls, inst):
-        return isinstance(inst, _real_datetime.datetime)
+        return isinstance(inst, _RealDateTime)
 
 
-class FrozenDate(_real_datetime.date, metaclass=_DateMeta):
+class FrozenDate(_RealDate, metaclass=_DateMeta):
     @classmethod
     def today(cls):
         t = _clock['today']
         return cls(t.year, t.month, t.day)
 
 
-class FrozenDateTime(_real_datetime.datetime, metaclass=_DateTimeMeta):
+class FrozenDateTime(_RealDateTime, metaclass=_DateTimeMeta):
     @classmethod
     def now(cls, tz=None):
         t = _clock['today']
@@ -139,11 +142,13 @@ _shim.datetime = FrozenDateTime
 
 def _patch_clock_in(m):
     d = vars(m)
+    if _real_datetime.date is FrozenDate:
+        return  # the datetime module itself carries the frozen classes (C13 worker)
     if d.get('datetime') is _real_datetime:
         d['datetime'] = _shim
-    elif d.get('datetime') is _real_datetime.datetime:
+    elif d.get('datetime') is _RealDateTime:
         d['datetime'] = FrozenDateTime
-    if d.get('date') is _real_datetime.date:
+    if d.get('date') is _RealDate:
         d['date'] = FrozenDate
 
 
@@ -156,10 +161,10 @@ def install_clock():
 def set_today(d):
     """Set the frozen date (datetime.date or ISO string or None=default)."""
     if d is None:
-        d = _real_datetime.date(2024, 5, 17)
+        d = _RealDate(2024, 5, 17)
     if isinstance(d, str):
-        d = _real_datetime.date.fromisoformat(d)
-    _clock['today'] = _real_datetime.date(d.year, d.month, d.day)
+        d = _RealDate.fromisoformat(d)
+    _clock['today'] = _RealDate(d.year, d.month, d.day)
 
 
 def get_today():
@@ -221,9 +226,9 @@ def enc(v):
         return {'t': 'set', 'v': sorted((enc(x) for x in v), key=repr)}
     if isinstance(v, dict):
         return {'t': 'dict', 'v': [[enc(k), enc(x)] for k, x in v.items()]}
-    if isinstance(v, _real_datetime.datetime):
+    if isinstance(v, _RealDateTime):
         return {'t': 'datetime', 'v': v.isoformat()}
-    if isinstance(v, _real_datetime.date):
+    if isinstance(v, _RealDate):
         return {'t': 'date', 'v': v.isoformat()}
     if isinstance(v, decimal.Decimal):
         return {'t': 'decimal', 'v': str(v)}
@@ -260,9 +265,9 @@ def dec(s):
     if t == 'dict':
         return dict((dec(k), dec(x)) for k, x in v)
     if t == 'datetime':
-        return _real_datetime.datetime.fromisoformat(v)
+        return _RealDateTime.fromisoformat(v)
     if t == 'date':
-        return _real_datetime.date.fromisoformat(v)
+        return _RealDate.fromisoformat(v)
     if t == 'decimal':
         return decimal.Decimal(v)
     if t == 'strlike':
